@@ -54,6 +54,20 @@ def lex_items(lex):
                              'assigned to the binding fails conversion and the route does not match although another '
                              'assignment is valid)' % (ty, lex[ty], ty), extra={'lex': ty, 'pattern': lex[ty]}))
         out[-1].backend = 'strings'
+    # completeness: every literal of the type (Python's own literal grammar, optionally signed, no
+    # underscores/blanks) is admitted -- otherwise a path the statement says matches does not
+    d = digits()
+    sign = z3.Option(z3.Union(z3.Re('+'), z3.Re('-')))
+    lit_int = z3.Concat(sign, d)
+    mant = z3.Union(z3.Concat(d, z3.Option(z3.Concat(z3.Re('.'), z3.Option(d)))), z3.Concat(z3.Re('.'), d))
+    lit_float = z3.Concat(sign, mant, z3.Option(z3.Concat(z3.Union(z3.Re('e'), z3.Re('E')), sign, d)))
+    for ty, lit in (('int', lit_int), ('float', lit_float)):
+        rx = R.to_z3(lex[ty])
+        out.append(Item('C05.T/lexical-class-%s-complete' % ty, 'T', [z3.InRe(s, lit)], z3.InRe(s, rx),
+                        note='every %s literal ([sign] digits%s) is admitted by the %s fragment %r'
+                             % (ty, ' [. digits] | . digits, optional exponent' if ty == 'float' else '', ty, lex[ty]),
+                        extra={'lex': ty, 'pattern': lex[ty]}))
+        out[-1].backend = 'strings'
     for ty in ('int', 'float', 'str'):
         rx = R.to_z3(lex[ty])
         out.append(Item('C05.T/lexical-class-%s-has-no-slash' % ty, 'T', [z3.InRe(s, rx)],
